@@ -27,6 +27,8 @@ var c17Cmds = [][]string{
 	{"stats"}, {"lint", "log.yaml"}, {"lint", "food.yaml"}, {"lint", "bad.yaml"}, {"lint", "--silent", "bad.yaml"},
 	// further arguments after the file with findings; a file whose first lines come before any heading
 	{"lint", "--silent", "bad.yaml", "food.yaml"}, {"lint", "bad.yaml", "log.yaml"}, {"lint", "stray.yaml"}, {"lint", "-s", "stray.yaml"},
+	// output options together
+	{"reg", "-s", "x", "-g", "--csv"}, {"reg", "-f", "a", "--csv"}, {"reg", "--csv"}, {"reg", "--use-old-reg-reporter", "--totals-only", "--shorten"}, {"bal", "-c", "--collapse-last"},
 }
 
 var c17UnshareOnce struct {
